@@ -15,6 +15,7 @@ DECIDED = ("R1 TCP state machine extracted from the code (typestate on Tcb::stat
            "transmit in (sibling state sets agree), so a lost FIN in LastAck cannot pin the entry.")
 NOT_DECIDED = "bounded-ticks reclamation as a number, behaviour under loss / reordering, address pairing of accepted sockets."
 DECIDED += "; R8 exhaustive scans (on_close, reap_closed, wake_all); R1 requires the SynReceived test to sample Tcb::state before the write to Closed (flow-sensitive)"
+DECIDED += "; R9 a dropped listener sweeps only children of its own address family; CloseWait counts as a completed connect; an orphaned socket takes no new data"
 ASSUMPTIONS = ["an fd with no shim handle and not on a listener's ready queue is closed by nobody (derived from creation sites)"]
 
 STATE = "turmoil_net::kernel::socket::Tcb::state"
